@@ -157,7 +157,8 @@ def scan_items(src, lo, hi):
                 header = norm_ws(src.text[toks[kwk].end:toks[stop].start])
             if kw == 'macro_rules' and body_open is None:
                 pass
-            yield dict(kind=kw, name=name, header=header, start=item_start, kw=kwk, body_open=body_open, end=end)
+            attrs = norm_ws(src.text[toks[item_start].start:toks[kwk].start])
+            yield dict(kind=kw, name=name, header=header, start=item_start, kw=kwk, body_open=body_open, end=end, attrs=attrs)
             k = end + 1
             item_start = None
             continue
@@ -176,13 +177,17 @@ def parse_path(path):
     segs = []
     for seg in path.split(' :: '):
         seg = seg.strip()
+        attr = None
+        if ' @ ' in seg:
+            seg, attr = seg.split(' @ ', 1)
+            seg, attr = seg.strip(), norm_ws(attr)
         if seg.startswith('impl') and not seg[4:5].isalnum():
             kw, rest = 'impl', seg[4:]
         else:
             kw, _, rest = seg.partition(' ')
         if kw not in ITEM_KW:
             raise Lost('bad item path segment `%s`' % seg)
-        segs.append((kw, rest.strip()))
+        segs.append((kw, rest.strip(), attr))
     return segs
 
 
@@ -191,10 +196,12 @@ def locate(src, path):
     segs = parse_path(path)
 
     def rec(lo, hi, idx):
-        kw, want = segs[idx]
+        kw, want, attr = segs[idx]
         found = []
         for it in scan_items(src, lo, hi):
             if it['kind'] != kw:
+                continue
+            if attr is not None and attr not in it['attrs']:
                 continue
             ok = (norm_ws(want) == it['header']) if kw == 'impl' else (want == it['name'])
             if not ok:
@@ -240,7 +247,7 @@ class Lift:
     def name(self):
         if self.alias:
             return self.alias
-        segs = self.path.split(' :: ')
+        segs = [x.split(' @ ')[0].strip() for x in self.path.split(' :: ')]
         if segs[-1].startswith('impl'):
             last = segs[-1][4:].strip()
         else:
